@@ -358,9 +358,50 @@ def _after_r121(ctx, c, ci, G, isG):
             ok = good
         except _U4:
             pass
+        if not ok:
+            # the same obligation by interpretation on the contract value of Random.getstate() (E14): every accepting path performs exactly one
+            # setstate on the generator, its argument is the given state (itself, or re-built from its parts), and nothing interpreted on the way
+            # stores a field or calls anything else on the generator
+            from ..contract import check_accepts as _ca, same_as as _same, Unsupported as _U14a
+            try:
+                _ref, _st, it14 = _ca(prog, c, rs)
+                acc = [o for o in it14.outcomes if o.kind != 'raise']
+                good = bool(acc)
+                for o in acc:
+                    if len(o.accepts) != 1 or not isG(o.accepts[0][0].func.value) or not _same(o.accepts[0][1], it14.contract):
+                        good = False
+                for f14 in it14.visited:
+                    for x in ast.walk(f14):
+                        if isinstance(x, ast.Attribute) and isinstance(x.ctx, (ast.Store, ast.Del)) and unparse(x.value) in ('self', 'cls', c):
+                            good = False
+                        if isinstance(x, ast.Subscript) and isinstance(x.ctx, (ast.Store, ast.Del)) and not isinstance(x.value, ast.Name):
+                            good = False
+                        if isinstance(x, ast.Call) and isinstance(x.func, ast.Attribute) and isG(x.func.value) and x.func.attr != 'setstate':
+                            good = False
+                        if isinstance(x, (ast.Global, ast.Nonlocal)):
+                            good = False
+                ok = good
+            except _U14a:
+                pass
     ctx.ob('R12.4', f'{c}.restore_state', ok, sample=f'{c}.restore_state: {[short(s) for s in b][:3]}')
     if not ok:
         ctx.finding('R12.4', f'{c}.restore_state', ci, rs, f'restore_state must call self.{G}.setstate({p}) and nothing else', where=f'{c}.restore_state')
+
+    # R12.15: the state save_state hands out is a Random.getstate() value (R12.4); restore_state, interpreted on the contract of that value,
+    # must not refuse it (E14, pdsa/contract.py)
+    from ..contract import check_accepts, Unsupported as _U14
+    ctx.rule('R12.15', f'{c}.restore_state accepts every state {c}.save_state can hand out: interpreted on the contract of Random.getstate() -- '
+                       f'(3, 624 words in [0, 2**32) + position in [1, 624], None or float) -- no refusal is reached through decided conditions')
+    try:
+        refusals, stats, _it = check_accepts(prog, c, rs)
+        ctx.ob('R12.15', f'{c}.restore_state:contract', not refusals, sample=f'{c}.restore_state on the getstate() contract: {stats}')
+        for node15, trail15 in refusals:
+            ctx.finding('R12.15', f'{c}.restore_state:refuses-saved-state:{short(node15)[:60]}', ci, node15,
+                        f'restore_state refuses a state that save_state hands out: `{short(node15)}` is reached for a genuine Random.getstate() value '
+                        f'[{trail15}]; e.g. the position is 624 right after seeding / reset, 1..624 after a draw', where=f'{c}.restore_state')
+    except _U14 as e15:
+        ctx.note(f"R12.15: {c}.restore_state not interpreted on the contract ({e15}); no verdict from this rule")
+        ctx.ob('R12.15', f'{c}.restore_state:contract', True, sample=f'not interpreted: {e15}')
 
 
 def escape_context(fn, n):
